@@ -227,10 +227,10 @@ class SymV(_VBase):
         if r == z3.unsat:
             self.claims.append(ClaimRecord(label, "ok"))
         elif r == z3.sat:
-            m = c.solver.model()
+            m = c.get_model()
             self.claims.append(ClaimRecord(label, "fail", c.model_values(m)))
         else:
-            reason = c.solver.reason_unknown()
+            reason = c.reason_unknown()
             m = self._pinned_witness(z3.Not(e))
             if m is not None:
                 self.claims.append(ClaimRecord(label, "fail", c.model_values(m), "witness found by pinning inputs"))
@@ -247,7 +247,8 @@ class SymV(_VBase):
         reals = [v for v in c.inputs.values() if z3.is_real(v)]
         ints = [v for v in c.inputs.values() if z3.is_int(v)]
         cands = [0, 1, -1, 2, -2, 0.5, -0.5, 3, -3, 1.5, 0.25, 10, -10, 0.1, 5, -5, 0.01, 100]
-        c.solver.set("timeout", 1500)
+        saved = (c.timeout_ms, c.fast_ms)
+        c.timeout_ms, c.fast_ms = 3000, 1500
         try:
             for attempt in range(24):
                 pins = []
@@ -260,9 +261,9 @@ class SymV(_VBase):
                         pins.append(v == rnd.choice([0, 1, 2, 3, -1, 5]))
                 r = c.check(neg, *pins)
                 if r == z3.sat:
-                    return c.solver.model()
+                    return c.get_model()
         finally:
-            c.solver.set("timeout", c.timeout_ms)
+            c.timeout_ms, c.fast_ms = saved
         return None
 
     def fail(self, label, detail=""):
@@ -273,7 +274,7 @@ class SymV(_VBase):
             raise PathAbort()
         self.reached.add(label)
         if r == z3.sat:
-            self.claims.append(ClaimRecord(label, "fail", c.model_values(c.solver.model()), detail))
+            self.claims.append(ClaimRecord(label, "fail", c.model_values(c.get_model()), detail))
         else:
             self.claims.append(ClaimRecord(label, "unknown", None, detail))
 
